@@ -7,8 +7,9 @@ MANIFEST = dict(
            "batch, signal-after-unlock, ids, cancel searching the active list only, callbacks as programs of "
            "set/cancel), for all operation sequences from any thread, all interleavings with the timer thread and all "
            "clock readings: sortedness/stability, id uniqueness, at-most-once, fires-when-scanned, never early, order, "
-           "cancel specification, no deadlock state, no lost wake-up, periodic re-arm invariant; one refuted lemma "
-           "(id read after the unlock) with its witness replayed on the C code.  Tied to the code by running "
+           "cancel specification, no deadlock state, no lost wake-up, periodic re-arm invariant; three witness lemmas "
+           "(the pre-repair `return (t->id)` after the unlock — found by this check, repaired in /repo, its schedule "
+           "replayed on every run; no global expiry order across batches; no cancel of a detached timer).  Tied to the code by running "
            "/repo's timer.c+clock.c under a virtual clock (ASan, 1-3 caller threads) against the extracted model on "
            "generated programs, and by driving the real replay/gids/random re-arm callbacks for virtual hours.",
            "7 C18"),
@@ -23,6 +24,15 @@ FINDING_KEY = "C18-set-returns-id-after-unlock"
 NS = 1000000000
 
 
+# fixed cases run every time: the replay of the (repaired) id-after-unlock defect, and the two documented
+# behaviours proved as witnesses in Properties_C18.v (order across batches, cancel of a detached timer)
+CORPUS = [
+    "Z 2 - t:100.0 h0:A50.0:0 s1:A1000.0:0 r0 c1:K0 t:2000.0",
+    "S 1 -;A15.0:0 s0:A10.0:1 s0:A20.0:0 t:25.0 t:1000.0",
+    "S 1 -;X2 s0:A10.0:1 s0:A10.0:0 t:10.0 t:1000.0",
+    "S 2 R60000:0 s0:R60000:0 t:59.999999999 t:60.0 t:3600.0 t:3660.0 t:90000.0",
+]
+
 # ----------------------------------------------------------------------------------------------------------
 # case generation
 # ----------------------------------------------------------------------------------------------------------
@@ -30,9 +40,9 @@ def fmt_ts(t):
     return "%d.%d" % t
 
 
-def gen_hop_set(rng, cbs, now_hint, rel_only=False, min_ms=0):
+def gen_hop_set(rng, cbs, now_hint, rel_only=False, min_ms=0, abs_only=False):
     cb = rng.choice(cbs)
-    if rel_only or rng.random() < 0.45:
+    if rel_only or (not abs_only and rng.random() < 0.45):
         ms = rng.choice([m for m in (0, 1, 1, 500, 999, 1000, 1001, 1500, 2500, 60000) if m >= min_ms])
         return "R%d:%d" % (ms, cb)
     sec = max(0, now_hint + rng.choice([-3, -1, 0, 0, 1, 1, 2, 2, 3, 5, 8]))
@@ -46,7 +56,7 @@ def gen_cancel(rng):
     return "X%d" % rng.choice([0, -1, 1, 2, 3, 7, 999, 999999999999])
 
 
-def gen_progs(rng):
+def gen_progs(rng, periodic=True):
     """Callback programs.  Two shapes, so that every settle terminates and the population stays bounded:
     periodic = exactly one self re-arm with a positive relative delay (+ cancels);
     dag      = sets of higher-numbered callbacks only (any time-stamp, also already expired) + cancels."""
@@ -55,14 +65,14 @@ def gen_progs(rng):
     for k in range(ncb):
         hops = []
         higher = list(range(k + 1, ncb))
-        if rng.random() < 0.35:
+        if periodic and rng.random() < 0.35:
             hops.append(gen_hop_set(rng, [k], 0, rel_only=True, min_ms=1))
             for _ in range(rng.choice([0, 0, 1, 2])):
                 hops.insert(rng.randrange(len(hops) + 1), gen_cancel(rng))
         else:
             for _ in range(rng.choice([0, 0, 1, 1, 2, 3])):
                 if higher and rng.random() < 0.55:
-                    hops.append(gen_hop_set(rng, higher, rng.randrange(0, 30)))
+                    hops.append(gen_hop_set(rng, higher, rng.randrange(0, 30), abs_only=not periodic))
                 else:
                     hops.append(gen_cancel(rng))
         progs.append(hops)
@@ -120,7 +130,7 @@ def gen_periodic_model_case(ctx):
 def gen_parallel(ctx):
     rng = ctx.rng
     nth = rng.randrange(2, 4)
-    progs = gen_progs(rng)
+    progs = gen_progs(rng, periodic=False)
     ncb = len(progs)
     ops = []
     t = 0
@@ -354,69 +364,64 @@ def key(tm):
     return (tm["ts"][0], tm["ts"][1], tm["seq"])
 
 
+PTOK = re.compile(r"^(?:([Ss])(\d+)=(-?\d+)@(-?\d+)\.(-?\d+)|([Cc])(-?\d+)=(-?\d+)|F(\d+)@(-?\d+)\.(-?\d+))$")
+
+
 def property_parallel(progs, ops, segs):
+    """Truly concurrent callers: the interleaving is not known, so only the clauses that do not need it:
+    ids positive and distinct; a callback runs at most once, never before its expiry, never after a cancel of
+    its id reported success; at most one cancel per id reports success; every timer that was not cancelled
+    has fired once the clock has passed every expiry and the timer thread is at rest."""
     toks = [t for s in segs for t in s]
     final = [o[2] for o in ops if o[0] == "t"][-1]
-    sets, fires, cancels = {}, {}, []
+    sets, ts_of, fires, cancels = {}, {}, {}, []
     for t in toks:
-        m = TOK.match(t)
+        m = PTOK.match(t)
         if not m:
             return "unparsable token %r" % t
         if m.group(1):
-            k, a, b = m.group(1), int(m.group(2)), int(m.group(3))
-            if k in "Ss":
-                if b <= 0:
-                    return "set returned a non-positive id"
-                if b in sets.values():
-                    return "two set calls returned the same id %d" % b
-                sets[a] = b
-            else:
-                cancels.append((a, b))
-        elif m.group(4):
-            seq = int(m.group(4))
+            seq, idv, ts = int(m.group(2)), int(m.group(3)), (int(m.group(4)), int(m.group(5)))
+            if idv <= 0:
+                return "set returned a non-positive id %d" % idv
+            if idv in sets.values():
+                other = [k for k, v in sets.items() if v == idv][0]
+                return ("two set calls returned the same id %d (set #%d and set #%d): the id does not identify "
+                        "the caller's timer" % (idv, other, seq))
+            sets[seq] = idv
+            ts_of[seq] = ts
+        elif m.group(6):
+            cancels.append((int(m.group(7)), int(m.group(8))))
+        else:
+            seq = int(m.group(9))
             if seq in fires:
                 return "timer #%d fired twice" % seq
-            fires[seq] = (int(m.group(5)), int(m.group(6)))
+            fires[seq] = (int(m.group(10)), int(m.group(11)))
     id2seq = {v: k for k, v in sets.items()}
-    ok_cancel = {}
+    ok_cancel = set()
     for idv, ret in cancels:
         if idv <= 0:
             if ret != -1:
-                return "cancel of id %d returned %d" % (idv, ret)
+                return "cancel of id %d returned %d, not -1" % (idv, ret)
             continue
         if ret == 1:
             if idv not in id2seq:
-                return "cancel of unknown id %d reported success" % idv
+                return "cancel of id %d, which no set returned, reported success" % idv
             if idv in ok_cancel:
-                return "id %d cancelled successfully twice" % idv
-            ok_cancel[idv] = True
+                return "two cancels of id %d reported success" % idv
+            ok_cancel.add(idv)
             if id2seq[idv] in fires:
                 return "timer id %d fired although its cancel reported success" % idv
         elif ret != 0:
-            return "cancel returned %d" % ret
-    # top-level sets are absolute in P mode: never early, and exactly once unless cancelled
-    abs_ts = {}
-    n = 0
-    for o in ops:
-        if o[0] == "s":
-            pass
-    # sequence numbers are handed out at call time by concurrent threads, so expiry is known only through ids of
-    # callbacks' own sets; the exactly-once clause does not need it:
+            return "cancel of id %d returned %d" % (idv, ret)
+    for seq, at in fires.items():
+        if seq not in sets:
+            return "callback ran for a timer that no set call accounts for (#%d)" % seq
+        if not le(ts_of[seq], at):
+            return "timer #%d fired at %s, before its expiry %s" % (seq, fmt_ts(at), fmt_ts(ts_of[seq]))
     for seq, idv in sets.items():
-        if idv in ok_cancel:
-            continue
-        if seq not in fires:
-            # may legitimately still be pending only if it expires after the final clock reading: every P-mode
-            # time-stamp is far below the final reading except relative re-arms made at the final reading
-            if fires and max(fires.values()) == final and seq > max(fires.keys()):
-                continue
-            late = [s for s, at in fires.items() if at == final]
-            return_ok = False
-            # a timer set by a callback that ran at the final reading with a positive relative delay
-            if late and seq > min(late):
-                return_ok = True
-            if not return_ok:
-                return "timer #%d (id %d) was neither cancelled nor fired" % (seq, idv)
+        if idv not in ok_cancel and seq not in fires and le(ts_of[seq], final):
+            return ("timer #%d (id %d, expiry %s) was neither cancelled nor fired although the clock reads %s and "
+                    "the timer thread is at rest" % (seq, idv, fmt_ts(ts_of[seq]), fmt_ts(final)))
     return None
 
 
@@ -450,71 +455,213 @@ def build_periodic(ctx):
                          "-fno-sanitize=shift"])
 
 
-def check_periodic(ctx, exe):
-    """Real replay_purge / _gids_map_update / _random_stir_entropy re-arm logic under a virtual clock."""
+def periodic_steps(ctx):
     rng = ctx.rng
-    hours = 30 if ctx.thorough else 10
-    steps = []
-    t = 0
-    end = hours * 3600 * 1000
-    while t < end:
+    n = 3000 if ctx.thorough else 600
+    steps, t = [], 0
+    for _ in range(n):
         r = rng.random()
-        if r < 0.55:
+        if r < 0.60:
             t += rng.choice([1000, 30000, 59999, 60000, 60001])
-        elif r < 0.85:
-            t += rng.choice([90000, 600000, 3600000])
+        elif r < 0.90:
+            t += rng.choice([90000, 600000])
+        elif r < 0.98:
+            t += 3600000
         else:
-            t += rng.choice([7200000, 10 * 3600000])      # big forward jump
+            t += rng.choice([7200000, 36000000])            # big forward jump
         steps.append("t %d" % t)
         if rng.random() < 0.03:
             steps.append("hup")
-    rc, out, err = vlib.run_lines([exe], steps, timeout=600)
-    lines = [l for l in out if l.startswith("ARM ") or l.startswith("!") or l.startswith("END")]
-    if rc != 0 or not lines or not lines[-1].startswith("END"):
-        return "periodic harness failed rc=%d: %s" % (rc, (err or "")[-400:]), steps, lines
-    # ARM <service> <now_ms> <delay_ms>
-    arms = {}
+    return steps
+
+
+def stir_secs_of(ms, facts):
+    """delay = secs*1000 + (up to 1023 ms of stagger); secs a power of two up to the maximum"""
+    for j in range(0, 1024):
+        if ms - j >= 0 and (ms - j) % 1000 == 0:
+            s = (ms - j) // 1000
+            if s >= 1 and (s & (s - 1)) == 0 and s <= facts["stir_max_secs"]:
+                return s
+    return None
+
+
+def read_facts():
+    txt = open(os.path.join(vlib.COQ, "gen", "GenTimer.v")).read()
+    return {m.group(1): int(m.group(2)) for m in re.finditer(r"Definition (\w+) : Z := (-?\d+)\.", txt)}
+
+
+def check_periodic(ctx, exe, steps=None):
+    """Real replay_purge / _gids_map_update / _random_stir_entropy under a virtual clock, judged by an independent
+    statement of "the service recurs": each service always has exactly one timer pending; when the clock reaches
+    it the callback runs at that reading and arms the next one (replay: +60 s; gids: +interval, and a
+    gids_update arms an immediate one that replaces the pending one; random: doubling interval up to the
+    maximum plus < 1024 ms)."""
+    facts = read_facts()
+    steps = steps or periodic_steps(ctx)
+    rc, out, err = vlib.run_lines([exe], steps, timeout=900, env={"ASAN_OPTIONS": "detect_leaks=0:exitcode=99"})
+    lines = [l for l in out if l.split(" ")[0] in ("ARM", "OP", "END") or l.startswith("!")]
     for l in lines:
         if l.startswith("!"):
             return "periodic harness: " + l, steps, lines
-        if l.startswith("ARM "):
-            _, svc, now, ms = l.split()
-            arms.setdefault(svc, []).append((int(now), int(ms)))
-    final = int(lines[-1].split()[1])
-    ctx.cov["periodic"] = {svc: len(v) for svc, v in arms.items()}
-    ctx.cov["periodic"]["virtual_hours"] = round(final / 3600000.0, 1)
-    clock_points = [0] + [int(s.split()[1]) for s in steps if s.startswith("t ")]
+    if rc != 0 or not lines or not lines[-1].startswith("END"):
+        return "periodic harness failed rc=%d: %s" % (rc, (err or "")[-600:]), steps, lines
+    segs, cur = [], ("start", [])
+    for l in lines:
+        f = l.split()
+        if f[0] == "OP":
+            segs.append(cur)
+            cur = (" ".join(f[1:]), [])
+        elif f[0] == "ARM":
+            cur[1].append((f[1], int(f[2]), int(f[3])))
+        elif f[0] == "END":
+            segs.append(cur)
+            final = int(f[1])
+    pend = {}          # service -> expiry (ms) of its one pending timer
+    counts = {"replay": 0, "gids": 0, "random": 0}
+    stir = None
+    now = 0
+    rp, gi = facts["replay_purge_secs"] * 1000, facts["group_update_secs"] * 1000
+    for op, arms in segs:
+        exp = []       # expected (service, delay or None for the stir rule) in any order
+        if op == "start":
+            exp = [("random", None), ("gids", 0), ("gids", gi), ("replay", rp)]
+        elif op.startswith("t "):
+            now = int(op.split()[1])
+            for svc in ("replay", "gids", "random"):
+                if pend.get(svc) is not None and pend[svc] <= now:
+                    exp.append((svc, {"replay": rp, "gids": gi, "random": None}[svc]))
+        elif op == "hup":
+            exp = [("gids", 0), ("gids", gi)]
+        got = sorted((a[0], a[2]) for a in arms)
+        for svc, at, ms in arms:
+            if at != now:
+                return ("%s armed at clock %d ms while the driver clock is %d ms" % (svc, at, now)), steps, lines
+        for svc in ("replay", "gids", "random"):
+            g = [ms for s, ms in got if s == svc]
+            e = [ms for s, ms in exp if s == svc]
+            if len(g) != len(e):
+                if len(g) < len(e):
+                    return ("service %s did not re-arm: its timer (expiry %s ms) was due at clock %d ms (op %r) "
+                            "and %d re-arm call(s) were seen, %d expected: the service stops recurring"
+                            % (svc, pend.get(svc), now, op, len(g), len(e))), steps, lines
+                return ("service %s armed %d timers at clock %d ms (op %r), expected %d"
+                        % (svc, len(g), now, op, len(e))), steps, lines
+            for gm, em in zip(sorted(g), sorted(x if x is not None else -1 for x in e)):
+                if em == -1:
+                    s2 = stir_secs_of(gm, facts)
+                    if s2 is None:
+                        return "PRNG stir delay %d ms is not 2^k s + <1024 ms" % gm, steps, lines
+                    if stir is not None and s2 != min(2 * stir, facts["stir_max_secs"]) and s2 != stir:
+                        return "PRNG stir interval went from %d s to %d s" % (stir, s2), steps, lines
+                    stir = s2
+                elif gm != em:
+                    return "service %s armed +%d ms, expected +%d ms" % (svc, gm, em), steps, lines
+            if g:
+                counts[svc] += len(g)
+                pend[svc] = now + max(g) if svc != "gids" else now + gi
     for svc in ("replay", "gids", "random"):
-        a = arms.get(svc, [])
-        if not a:
-            return "service %s never armed its timer" % svc, steps, lines
-        # the last armed instance must lie in the future of the final clock (still recurring), and every
-        # earlier instance must have been followed by a re-arm at the first clock reading >= its expiry
-        chains = a
-        last_now, last_ms = chains[-1]
-        if last_now + last_ms <= final and svc != "gids":
-            return ("service %s: last timer armed at %d ms for +%d ms is overdue at the end (%d ms) and was "
-                    "not re-armed" % (svc, last_now, last_ms, final)), steps, lines
-        if svc in ("replay", "random"):
-            for (n0, m0), (n1, _m1) in zip(chains, chains[1:]):
-                exp = n0 + m0
-                want = min([c for c in clock_points if c >= exp] or [None])
-                if n1 != want:
-                    return ("service %s: instance armed at %d ms (+%d) was re-armed at %d ms, expected the first "
-                            "clock reading >= expiry, %s" % (svc, n0, m0, n1, want)), steps, lines
-        if svc == "replay" and any(m != 60000 for _, m in chains):
-            return "replay purge period is not 60 s", steps, lines
-        if svc == "random":
-            # doubling interval up to the maximum, plus up to 1023 ms of stagger
-            secs = [m // 1000 if m % 1000 < 1024 else None for _, m in chains]
-            for (n0, m0), (n1, m1) in zip(chains, chains[1:]):
-                b0, b1 = (m0 - (m0 % 1024 if False else 0)), m1
-            # (shape checked in the harness: it prints the stir interval it derives)
-        if svc == "gids":
-            # at least one instance pending at the end
-            if not any(n + m > final for n, m in chains[-4:]):
-                return "gids refresh: no instance pending at the end", steps, lines
+        if pend.get(svc) is None or pend[svc] <= final:
+            return "service %s has no timer pending beyond the final clock reading" % svc, steps, lines
+    ctx.cov["periodic"] = dict(counts, virtual_hours=round(final / 3600000.0, 1), steps=len(steps))
     return None, steps, lines
+
+
+def gallina_case(line):
+    """A case line as a Gallina term: (hp, ops)."""
+    mode, nth, progs, ops = parse_case(line)
+
+    def z(n):
+        return "(%d)" % n
+
+    def hop(h):
+        if h[0] == "R":
+            return "HSetRel %s %d%%nat" % (z(h[1]), h[2])
+        if h[0] == "A":
+            return "HSetAbs (%s, %s) %d%%nat" % (z(h[1][0]), z(h[1][1]), h[2])
+        if h[0] == "K":
+            return "HCancelRel %s" % z(h[1])
+        return "HCancelAbs %s" % z(h[1])
+    arms = " ".join("| %d%%nat => [%s]" % (i, "; ".join(hop(h) for h in p)) for i, p in enumerate(progs))
+    hp = "(fun cb : nat => match cb with %s | _ => [] end)" % arms
+    dl = []
+    for kind, th, h in ops:
+        if kind == "t":
+            dl.append("DClock (%s, %s)" % (z(h[0]), z(h[1])))
+        elif kind in "sc":
+            dl.append("DOp (%s)" % hop(h))
+        elif kind == "h":
+            dl.append("DHold (%s)" % hop(h))
+        else:
+            dl.append("DRelease")
+    return hp, "[%s]" % "; ".join(dl)
+
+
+EVCODE = """From Coq Require Import List ZArith.
+From MV Require Import TimerModel.
+Import ListNotations.
+Local Open Scope Z_scope.
+Definition evc (e : event) : list Z :=
+  match e with
+  | ESet i id => [1; if i then 1 else 0; id]
+  | ECancel i id r => [2; if i then 1 else 0; id; r]
+  | EFire t (s, n) => [3; t_id t; s; n]
+  | EHeld => [4]
+  | EStuck => [5]
+  end."""
+
+
+def crosscheck_extraction(ctx, lines, mod):
+    """The extracted oracle against vm_compute inside Coq on a few cases (extraction + driver glue)."""
+    pick = [i for i, l in enumerate(lines) if l[0] in "SZ" and len(l) < 700][:10]
+    exprs = []
+    for i in pick:
+        hp, ops = gallina_case(lines[i])
+        exprs.append("map (map evc) (drive %s true 2000 (init, (0, 0), []) %s)" % (hp, ops))
+    res, e3 = vlib.coq_eval_sample(ctx, EVCODE, exprs)
+    if res is None or len(res) != len(pick):
+        return "vm_compute cross-check could not run: %s" % (e3 or "")[-300:]
+    bad = 0
+    for i, r in zip(pick, res):
+        # canonical token stream from Coq's answer: nested lists of integers, one inner-most list per event
+        toks = []
+        seq = 0
+        held = []
+        mode, nth, progs, ops = parse_case(lines[i])
+        segs = re.findall(r"\[((?:\s*\[[^\[\]]*\]\s*;?)*)\]", r[1:-1] if r.startswith("[") else r)
+        if len(segs) != len(ops):
+            bad += 1
+            continue
+        for (kind, th, h), sg in zip(ops, segs):
+            if kind == "h":
+                seq += 1
+                held.append(seq)
+            first = True
+            for ev in re.findall(r"\[([^\[\]]*)\]", sg):
+                v = [int(x) for x in re.findall(r"-?\d+", ev)]
+                if v[0] == 1:
+                    if not v[1] and first and kind in "rh" and held:
+                        n = held.pop(0)
+                    else:
+                        seq += 1
+                        n = seq
+                    toks.append("%s%d=%d" % ("s" if v[1] else "S", n, v[2]))
+                elif v[0] == 2:
+                    toks.append("%s%d=%d" % ("c" if v[1] else "C", v[2], v[3]))
+                elif v[0] == 3:
+                    toks.append("F%d@%d.%d" % (v[1], v[2], v[3]))
+                elif v[0] == 4:
+                    toks.append("H")
+                else:
+                    toks.append("!stuck")
+                first = False
+            toks.append("|")
+        want = mod[i].split()[1:]
+        if want and want[-1] == ".":
+            want = want[:-1]
+        if toks != want:
+            bad += 1
+    ctx.cov["extraction_crosscheck"] = {"cases": len(pick), "disagreements": bad}
+    return "extracted oracle disagrees with vm_compute on %d of %d sample cases" % (bad, len(pick)) if bad else None
 
 
 def run(ctx):
@@ -528,45 +675,61 @@ def run(ctx):
         "expiry ties, callbacks that set/cancel/re-arm, clock steps, forward jumps, backward readings), compared "
         "token by token with the model AND judged by an independent Python statement of C18; P = truly concurrent "
         "callers, judged by the property only; Z = the id-after-unlock schedule; periodic = real replay_purge, "
-        "_gids_map_update, _random_stir_entropy callbacks for 10 (30) virtual hours with jumps and SIGHUP-style "
-        "gids_update calls; non-trivial = every case (distinct by content)")
+        "_gids_map_update, _random_stir_entropy callbacks (every munged source but munged.c linked) for 600 (3000) clock "
+        "steps = 100+ (600+) virtual hours with forward jumps and SIGHUP-style gids_update calls, judged by an "
+        "independent statement of 'each service always has one timer pending and re-arms at the first clock reading "
+        "at or after its expiry'; a sample of oracle answers re-evaluated with vm_compute inside Coq; "
+        "non-trivial = every case (distinct by content)")
     oracle = vlib.build_oracle(ctx, "timer")
     exe, err = build_harness(ctx)
     if exe is None:
         ctx.violation("timer harness does not build against /repo: " + err[-500:],
                       {"obligation": "correspondence C18 (build)", "stderr": err}, found_input=False)
         return
-    nser = 6000 if ctx.thorough else 1200
-    nper = 600 if ctx.thorough else 150
-    npar = 3000 if ctx.thorough else 500
-    nrace = 30 if ctx.thorough else 9
-    if getattr(ctx, "replay", None):
-        r = json.load(open(ctx.replay))
-        lines = [r["case_line"]] if "case_line" in r else []
-        if r.get("periodic_steps"):
-            lines = []
+    nser = 30000 if ctx.thorough else 1200
+    nper = 2000 if ctx.thorough else 150
+    npar = 15000 if ctx.thorough else 500
+    nrace = 100 if ctx.thorough else 9
+    replay_obj = json.load(open(ctx.replay)) if getattr(ctx, "replay", None) else None
+    if replay_obj:
+        lines = [replay_obj["case_line"]] if "case_line" in replay_obj else []
     else:
-        lines = [gen_serial(ctx) for _ in range(nser)] + [gen_periodic_model_case(ctx) for _ in range(nper)] \
-            + [gen_parallel(ctx) for _ in range(npar)] + [gen_race(ctx, i) for i in range(nrace)]
+        ser = [gen_serial(ctx) for _ in range(nser)]
+        per = [gen_periodic_model_case(ctx) for _ in range(nper)]
+        par = [gen_parallel(ctx) for _ in range(npar)]
+        lines = CORPUS + [gen_race(ctx, i) for i in range(nrace)] + ser[:40] + per[:10] + par[:40] \
+            + ser[40:] + per[10:] + par[40:]
     dist = {}
     for l in lines:
         dist[l[0]] = dist.get(l[0], 0) + 1
     ctx.cov["input_distribution"] = dist
     env = {"ASAN_OPTIONS": "detect_leaks=0:abort_on_error=0:exitcode=99"}
-    rc, impl, stderr = vlib.run_lines([exe], lines, timeout=3000, env=env)
-    ctx.log("implementation ran %d cases rc=%d" % (len(lines), rc))
-    if rc != 0 or len(impl) != len(lines):
-        idx = min(len(impl), max(len(lines) - 1, 0))
-        ctx.violation("timer harness aborted (rc=%d) at case %s" % (rc, lines[idx][:200] if lines else "-"),
-                      {"case_line": lines[idx] if lines else "", "stderr": stderr[-3000:], "rc": rc})
-        return
-    direct_fail, race_hits = [], []
-    for l, o in zip(lines, impl):
-        ctx.count(l)
-        why = property_holds(l, o)
-        if why:
-            (race_hits if l[0] == "Z" else direct_fail).append((l, o, why))
-    for l in lines[:2] + lines[nser:nser + 1] + lines[-2:]:
+    # run in chunks and stop at the first chunk with a failing case: a broken timer.c typically hangs or
+    # misbehaves on most cases, and each hang costs the harness its real-time limit
+    impl, direct_fail, race_hits = [], [], []
+    cuts = [0, min(24, len(lines))] + list(range(24 + 200, len(lines), 200)) + [len(lines)]
+    for c0, c1 in zip(cuts, cuts[1:]):
+        chunk = lines[c0:c1]
+        if not chunk:
+            continue
+        rc, out, stderr = vlib.run_lines([exe], chunk, timeout=900, env=env)
+        if rc != 0 or len(out) != len(chunk):
+            idx = min(len(out), len(chunk) - 1)
+            ctx.violation("timer harness aborted (rc=%d) at case %s" % (rc, chunk[idx][:200]),
+                          {"case_line": chunk[idx], "stderr": stderr[-3000:], "rc": rc})
+            return
+        impl += out
+        for l, o in zip(chunk, out):
+            ctx.count(l)
+            why = property_holds(l, o)
+            if why:
+                (race_hits if l[0] == "Z" and "returned the same id" in why else direct_fail).append((l, o, why))
+        if direct_fail or race_hits:
+            ctx.notes.append("stopped after %d of %d cases: failing case found" % (len(impl), len(lines)))
+            break
+    lines = lines[:len(impl)]
+    ctx.log("implementation ran %d cases, %d fail the property" % (len(lines), len(direct_fail) + len(race_hits)))
+    for l in lines[:2] + lines[len(CORPUS) + nrace:len(CORPUS) + nrace + 2] + lines[-2:]:
         ctx.sample(l[:300])
     mismatches = []
     if oracle and lines:
@@ -580,6 +743,9 @@ def run(ctx):
             if a.split() != b.split():
                 mismatches.append((l, a, b))
         ctx.cov["traces_validated_against_impl"] = len(det)
+        xc = crosscheck_extraction(ctx, [l for l, _ in det], mod)
+        if xc:
+            ctx.violation(xc, {"obligation": "extraction cross-check"}, found_input=False)
         ctx.log("model ran %d cases, %d mismatches" % (len(det), len(mismatches)))
         # the unrepaired model (`return (t->id)` after the unlock) must reproduce the race answers exactly
         if race_hits:
@@ -589,22 +755,23 @@ def run(ctx):
             ctx.cov["race_witness"] = {"cases": len(race_hits), "explained_by_unrepaired_model": same}
     # periodic services on the real callbacks
     pexe, perr = build_periodic(ctx)
+    rsteps = replay_obj.get("periodic_steps") if replay_obj else None
     if pexe is None:
         ctx.violation("periodic harness does not build against /repo: " + perr[-600:],
                       {"obligation": "correspondence C18 periodic (build)", "stderr": perr}, found_input=False)
-    elif not getattr(ctx, "replay", None) or json.load(open(ctx.replay)).get("periodic_steps"):
-        why, steps, plines = check_periodic(ctx, pexe)
-        ctx.count("periodic:" + " ".join(steps)[:2000])
+    elif not replay_obj or rsteps:
+        why, steps, plines = check_periodic(ctx, pexe, steps=rsteps)
+        ctx.count("periodic:" + " ".join(steps))
         ctx.log("periodic services:", why or "ok %s" % ctx.cov.get("periodic"))
         if why:
-            ctx.violation("periodic services: " + why, {"periodic_steps": steps[:400], "log_tail": plines[-40:],
-                                                       "why": why})
+            ctx.violation("periodic services: " + why, {"periodic_steps": steps, "log_tail": plines[-40:], "why": why})
     # verdict
     if race_hits:
         l, o, why = race_hits[0]
         ctx.violation("%s: case %s -> %s (timer_set_absolute reads t->id after releasing the mutex; schedule: caller "
                       "held between unlock and return while the timer fires, is retired and its struct re-used; "
-                      "Coq: C18_set_return_after_unlock_refuted; repair: seeded/fixes/timer-set-id-after-unlock.diff)"
+                      "Coq: C18_set_return_after_unlock_refuted; this is a regression of the `fix:` that saves the id under the "
+                      "mutex, cf. seeded/fixes/timer-set-id-after-unlock.diff)"
                       % (why, l, o),
                       {"case_line": l, "impl_output": o, "why": why, "finding_key": FINDING_KEY,
                        "n_failing": len(race_hits)})
